@@ -345,6 +345,19 @@ func (l *life) startManager() {
 	fmt.Fprintf(l.out, "W\t%d\t%s\t0\t0\t%s\n", l.n, hx([]byte(l.pass)), al)
 }
 
+// sanitize keeps printable ASCII and escapes everything else (error texts go into TAB separated lines)
+func sanitize(s string) string {
+	var sb strings.Builder
+	for i := 0; i < len(s) && i < 300; i++ {
+		if c := s[i]; c >= 32 && c < 127 {
+			sb.WriteByte(c)
+		} else {
+			fmt.Fprintf(&sb, "\\x%02x", c)
+		}
+	}
+	return sb.String()
+}
+
 func errClass(err error) string {
 	switch err {
 	case nil:
@@ -365,7 +378,7 @@ func errClass(err error) string {
 	if err.Error() == "unable to decrypt" {
 		return "err:decrypt-failed"
 	}
-	return "err:other:" + strings.ReplaceAll(strings.ReplaceAll(err.Error(), "\t", " "), "\n", " ")
+	return "err:other:" + sanitize(err.Error())
 }
 
 // candidate passphrases: all mutation classes of the right one, empty, very long, binary
